@@ -144,7 +144,11 @@ def python_tables(path=None):
     las = {}
     for la in ("lookahead_0", "lookahead_1"):
         las[la] = _lookahead(fns[la], la)
-    driver = _driver(fns, cls)
+    try:
+        driver = _driver(fns, cls)
+    except Untranslatable as e:
+        # the driver half is not translated (Engine X executes it as it is); only record that its shape is not the usual one
+        driver = {"unrecognised_shape": str(e)[:300]}
     # match_X wrappers
     wrappers = {}
     for k in KINDS:
